@@ -90,7 +90,9 @@ def verify_root(trusted_current_root_metadata, untrusted_new_root_metadata):
     trusted_root_version = trusted_current_root_metadata["signed"]["version"]
     untrusted_root_version = untrusted_new_root_metadata["signed"]["version"]
 
-    if trusted_root_version + 1 != untrusted_root_version:
+    # Both versions passed checkformat_natural_int, so int() is exact here; the
+    # comparison must not be done in floating point (2.0**53 + 1 == 2.0**53).
+    if int(trusted_root_version) + 1 != int(untrusted_root_version):
         # TODO ✅: Create a suitable error class for this.
         raise MetadataVerificationError(
             "Root chaining failure: we currently trust a version of root "
